@@ -50,6 +50,10 @@ type dialLog struct {
 	// declaredDead[addr] = times at which the client removed the connection
 	// to addr from its cache (its "removed region client" log statement)
 	declaredDead map[string][]time.Time
+	// deafDial, if set, says how long the n-th dial of addr takes regardless of
+	// its context (a custom dialer that does not honour contexts); the
+	// connection it returns ignores write deadlines, as an in-memory pipe may
+	deafDial func(addr string, n int) time.Duration
 }
 
 // logger returns a logger that records when the client declares a connection dead.
@@ -74,7 +78,15 @@ func (dl *dialLog) logger() *slog.Logger {
 
 type closeNotify struct {
 	*faultconn.Conn
-	rec *dialRec
+	rec  *dialRec
+	deaf bool
+}
+
+func (c *closeNotify) SetWriteDeadline(t time.Time) error {
+	if c.deaf {
+		return nil
+	}
+	return c.Conn.SetWriteDeadline(t)
 }
 
 func (c *closeNotify) Close() error {
@@ -110,6 +122,14 @@ func trackingDialer(cl *sim.Cluster, dl *dialLog, fault func(addr string, n int)
 		counts[addr]++
 		n := counts[addr]
 		dl.mu.Unlock()
+		deaf := false
+		if dl.deafDial != nil {
+			if d := dl.deafDial(addr, n); d > 0 {
+				deaf = true
+				time.Sleep(d)
+				ctx = context.Background()
+			}
+		}
 		conn, err := dial(ctx, network, addr)
 		if err != nil {
 			return nil, err
@@ -121,7 +141,7 @@ func trackingDialer(cl *sim.Cluster, dl *dialLog, fault func(addr string, n int)
 		fc := faultconn.New(conn, f)
 		rec.conn = fc
 		rec.ok = true
-		return &closeNotify{fc, rec}, nil
+		return &closeNotify{fc, rec, deaf}, nil
 	}
 }
 
@@ -282,7 +302,7 @@ type c20Case struct {
 	Regions int
 	Users   int
 	Later   int
-	Fault   string // "" | reset | abort-exc | dial-fail-once | read-error | split-lonely | probe-opening | action-stopped | slow-reply-deadline | merge-by-miss
+	Fault   string // "" | reset | abort-exc | dial-fail-once | read-error | split-lonely | probe-opening | action-stopped | slow-reply-deadline | merge-by-miss | nsre-repeated | deaf-slow-dial
 	Queue   int
 	// Precache: "" | before | during - CacheRegions (every region of the table
 	// discovered and connected at once by the client itself) before or during the burst
@@ -333,6 +353,7 @@ func runC20Case(c *fw.Ctx, id string, cs c20Case) {
 	cl.EchoResults = true
 	dl := &dialLog{}
 	var faultOnce, nsreOnce int32
+	lookupTimeout := 3 * time.Second
 	readErrAt := 3 + r.Intn(6) // drawn here: the dialer runs in the client's goroutines
 	var fault func(addr string, n int) *faultconn.Fault
 	switch cs.Fault {
@@ -389,6 +410,31 @@ func runC20Case(c *fw.Ctx, id string, cs c20Case) {
 			}
 			return nil
 		}
+	case "nsre-repeated":
+		// one operation is answered "not serving" five times in a row although
+		// the region is online all the time (probes and hbase:meta say so)
+		var victim atomic.Value
+		var n int32
+		cl.OnAction = func(req *sim.Request, a *sim.Action) *sim.Exc {
+			if a.OpID == "" {
+				return nil
+			}
+			victim.CompareAndSwap(nil, a.OpID)
+			if victim.Load().(string) == a.OpID && atomic.AddInt32(&n, 1) <= 5 {
+				return &sim.Exc{Class: sim.ExcNSRE}
+			}
+			return nil
+		}
+	case "deaf-slow-dial":
+		// the first dial of every other server takes longer than the lookup
+		// timeout and cannot be interrupted
+		lookupTimeout = 400 * time.Millisecond
+		dl.deafDial = func(addr string, n int) time.Duration {
+			if n == 1 && addr != "rs0:16020" {
+				return 600 * time.Millisecond
+			}
+			return 0
+		}
 	case "abort-exc":
 		cl.OnRequest = func(req *sim.Request) *sim.Reply {
 			if req.Multi != nil && req.Server != "rs0:16020" && atomic.CompareAndSwapInt32(&faultOnce, 0, 1) {
@@ -398,7 +444,7 @@ func runC20Case(c *fw.Ctx, id string, cs c20Case) {
 		}
 	}
 	client := gohbase.VerifNewClient(cl.ZK(), gohbase.RegionDialer(trackingDialer(cl, dl, fault)), gohbase.Logger(dl.logger()),
-		gohbase.RpcQueueSize(cs.Queue), gohbase.FlushInterval(time.Millisecond), gohbase.RegionLookupTimeout(3*time.Second), gohbase.RegionReadTimeout(3*time.Second))
+		gohbase.RpcQueueSize(cs.Queue), gohbase.FlushInterval(time.Millisecond), gohbase.RegionLookupTimeout(lookupTimeout), gohbase.RegionReadTimeout(3*time.Second))
 	dl.client.Store(client)
 	defer func() { within(3*time.Second, client.Close) }()
 	var opn int32
@@ -570,7 +616,7 @@ func init() {
 			for i := 0; i < n; i++ {
 				cs := c20Case{Seed: r.Int63(), Servers: 1 + r.Intn(3), Regions: []int{1, 2, 4, 8, 16, 32}[r.Intn(6)],
 					Users: []int{1, 2, 8, 32, 128}[r.Intn(5)], Later: r.Intn(21), Queue: []int{1, 5, 100}[r.Intn(3)],
-					Fault:    []string{"", "", "reset", "abort-exc", "dial-fail-once", "read-error", "split-lonely", "probe-opening", "action-stopped", "slow-reply-deadline", "merge-by-miss"}[r.Intn(11)],
+					Fault:    []string{"", "", "reset", "abort-exc", "dial-fail-once", "read-error", "split-lonely", "probe-opening", "action-stopped", "slow-reply-deadline", "merge-by-miss", "nsre-repeated", "deaf-slow-dial"}[r.Intn(13)],
 					Precache: []string{"", "", "before", "during"}[r.Intn(4)], Dotted: r.Intn(5) == 0}
 				if cs.Fault == "merge-by-miss" {
 					cs.Servers, cs.Dotted = 1, false
